@@ -3,6 +3,7 @@
 
 #[macro_use]
 pub mod engine;
+pub mod cy;
 pub mod hist;
 pub mod model;
 pub mod pv;
